@@ -27,7 +27,7 @@ def fit_kde(D, w, G, cell, s, Q, fp, fs):
 def case(cid, rng):
     dim = int(rng.integers(1, 4))
     nd = int(rng.integers(18, 46))
-    ng = int(rng.integers(2, 7))
+    ng = int(rng.integers(3, 9))
     s = [1, 2, 4][int(rng.integers(3))]
     periodic = rng.random() < 0.45
     cell = list(int(v) for v in rng.integers(8, 25, size=dim)) if periodic else []
@@ -44,24 +44,21 @@ def case(cid, rng):
     if periodic:
         D = D % np.array(cell)
     w = rng.integers(1, 5, size=nd)
-    for _ in range(50):
-        gi = rng.choice(nd, ng, replace=False)
-        G = D[gi].copy()
-        if rng.random() < 0.3:
-            G = G + rng.integers(-1, 2, size=G.shape)
-        if len({tuple(g) for g in G}) == ng:
-            break
-    Dset = {tuple(d) for d in D}
-    Q = []
-    while len(Q) < 4:
-        qv = rng.integers(-4, 28, size=dim)
-        if tuple(qv) not in Dset and (not periodic or tuple(qv % np.array(cell)) not in Dset):
-            Q.append(qv)
-    Q = np.array(Q)
+    # distinct grid points (a grid with coincident points is not a valid input)
+    uniq = np.unique(D, axis=0)
+    rng.shuffle(uniq)
+    ng = min(ng, len(uniq))
+    G = uniq[:ng].copy()
+    if rng.random() < 0.3:
+        G2 = G + rng.integers(-1, 2, size=G.shape)
+        if len(np.unique(G2, axis=0)) == ng:
+            G = G2
+    # query points are never descriptors: half-lattice positions
+    Q = rng.integers(-4, 28, size=(4, dim)) + 0.25      # never a descriptor, never exactly half a cell from anything
     fp, fs = (0.5, -1.0) if rng.random() < 0.7 else (-1.0, float(rng.choice([0.3, 0.6])))
     fp = float(rng.choice([0.15, 0.3, 0.5])) if fs < 0 else fp
     c = {"id": cid, "kind": kind, "dim": dim, "D": D.astype(int).tolist(), "w": [int(v) for v in w], "G": G.astype(int).tolist(), "cell": cell, "scale": s,
-         "Q": Q.tolist(), "fpoints": fp, "fspread": fs, "raised": False, "labels": [], "gw": [], "H": [], "finite": True, "ld": [], "score": 0, "routes": []}
+         "Q": Q.tolist(), "fp": ([int(round(fp * 20)), 20] if fp > 0 else []), "fpoints": fp, "fspread": fs, "raised": False, "errclass": "", "labels": [], "gw": [], "H": [], "finite": True, "ld": [], "score": 0, "routes": []}
     W = int(w.sum())
     try:
         with warnings.catch_warnings():
@@ -91,9 +88,9 @@ def case(cid, rng):
             def route(kind_, D2, w2, G2, Q2):
                 try:
                     _, l2 = fit_kde(D2, w2, G2, cell, s, Q2, fp, fs)
-                    c["routes"].append({"kind": kind_, "ld": fq(l2)})
+                    c["routes"].append({"kind": kind_, "ld": fq(l2), "finite": bool(np.all(np.isfinite(l2)))})
                 except Exception as e:  # noqa
-                    c["routes"].append({"kind": kind_ + "-raised", "ld": [2000000000] * len(Q)})
+                    c["routes"].append({"kind": kind_ + "-raised", "ld": [2000000000] * len(Q), "finite": True})
             if not periodic:
                 t = rng.integers(-9, 10, size=dim)
                 route("translation-of-all-data", D + t, w, G + t, Q + t)
@@ -106,6 +103,7 @@ def case(cid, rng):
                 route("whole-cell-shift-of-grid-points", D, w, G + ca * rng.integers(-2, 3, size=G.shape), Q)
     except Exception as e:  # noqa
         c["raised"] = True
+        c["errclass"] = type(e).__name__
         c["msg"] = "%s: %s" % (type(e).__name__, str(e)[:120])
         c["H"] = [[[0] * dim] * dim] * ng
         c["ld"] = [0] * len(Q)
@@ -118,7 +116,7 @@ def gen(args):
     return [case("w%d-%d" % (wid, t), rng) for t in range(n)]
 
 
-KEYS = ("id", "D", "w", "G", "cell", "raised", "labels", "gw", "H", "finite", "ld", "score", "routes")
+KEYS = ("id", "D", "w", "G", "cell", "fp", "raised", "errclass", "labels", "gw", "H", "finite", "ld", "score", "routes")
 
 
 def strip(c):
@@ -127,7 +125,7 @@ def strip(c):
 
 def run(tier):
     rep = core.Report("C17", tier)
-    per = 4 if tier == "quick" else 50
+    per = 10 if tier == "quick" else 120
     with mp.Pool(core.NCPU) as pool:
         cases = [c for part in pool.map(gen, [(w, per, core.seed()) for w in range(core.NCPU)]) for c in part]
     verdicts, stats = core.validate_cases("trace/TraceKDE.tla", [strip(c) for c in cases], timeout=7200)
